@@ -6,6 +6,7 @@ import (
 	"encoding/json"
 	"errors"
 	"fmt"
+	"path"
 	"reflect"
 	"sort"
 	"strings"
@@ -38,9 +39,15 @@ var keyAlphabet = []string{
 	"/tables/a", "/tables/b", "/tables/a/lease", "/tables/b/lease", "/tables/sys/idseq", "/tables/ab", "/tables/",
 	"/cleanup/1/10001", "/cleanup/1/10002", "/cleanup/2/10001", "/cleanup/11/10001",
 	"queue/a/1", "queue/a/2", "queue/b/1", "queue/ab/1", "x", "",
+	// keys holding the characters the glob syntax gives a meaning to
+	"/jobs/a*b/1", "/jobs/aXb/1", "/jobs/[x]", "/jobs/x", "/jobs/q?", "/jobs/qq", `/jobs/back\slash`,
 }
 
-var patterns = []string{"/tables/*", "/cleanup/1/*", "/cleanup/2/*", "queue/a/*", "queue/b/*", "*", "/tables/a*", "/*/*/*"}
+var patterns = []string{"/tables/*", "/cleanup/1/*", "/cleanup/2/*", "queue/a/*", "queue/b/*", "*", "/tables/a*", "/*/*/*",
+	// the whole documented syntax ("the same as in path.Match"): single-character wildcard, classes, ranges, negation, escapes of the
+	// special characters (the only way to address keys that contain them)
+	"/tables/?", "/tables/[ab]", "/tables/[^a]*", "/tables/[a-c]/*", "queue/?/[12]", `/jobs/a\*b/*`, `/jobs/a\*b/1`, `/jobs/a*b/*`, `/jobs/\[x\]`, `/jobs/q\?`, `/jobs/q?`,
+	`/jobs/back\\slash`, `/jobs/*\**`, `\/tables/a`, `/tables\/*`}
 
 var listPaths = []string{"/tables", "/tables/", "/cleanup", "/cleanup/1", "queue", "queue/a", "/", "/tables/a"}
 
@@ -300,6 +307,31 @@ func run(c Case, o *vt.Obs) *vt.Failure {
 			case "getall":
 				got, gerr = a.Lookup(kv.QueryAll{Pattern: op.Pattern})
 				want, werr = ref.GetAll(op.Pattern)
+				// the documented reference: "the syntax of patterns is the same as in path.Match"
+				if gerr == nil {
+					var wantKeys []string
+					bad := false
+					for k := range model {
+						ok, merr := path.Match(op.Pattern, k)
+						if merr != nil {
+							bad = true
+							break
+						}
+						if ok {
+							wantKeys = append(wantKeys, k)
+						}
+					}
+					if !bad {
+						sort.Strings(wantKeys)
+						var gotKeys []string
+						for _, p := range got.([]kv.Pair) {
+							gotKeys = append(gotKeys, p.Key)
+						}
+						if !reflect.DeepEqual(gotKeys, wantKeys) && (len(gotKeys) != 0 || len(wantKeys) != 0) {
+							return vt.Failf(prop+"/glob", i, "getall %q returned keys %q, the keys of the model that path.Match accepts are %q", op.Pattern, gotKeys, wantKeys)
+						}
+					}
+				}
 				// independent matcher for the caller glob shapes
 				if gerr == nil {
 					var wantKeys []string
